@@ -12,6 +12,7 @@
 #include <cstdio>
 #include <cstdlib>
 #include <cstring>
+#include <map>
 #include <new>
 #include <set>
 #include <stdexcept>
@@ -75,13 +76,22 @@ void unodb_verif_alloc(void* p, std::size_t) noexcept {
     track::in_track = false;
   }
 }
+void verif_watch_free(void* p) noexcept;
 void unodb_verif_free(void* p) noexcept {
+  verif_watch_free(p);
   if (track::on && !track::in_track) {
     track::in_track = true;
     track::live->erase(p);
     track::in_track = false;
   }
 }
+}
+
+std::map<void*, int>* g_watch_ptr = nullptr;
+void verif_watch_free(void* p) noexcept {
+  if (g_watch_ptr == nullptr || track::in_track) return;
+  const auto it = g_watch_ptr->find(p);
+  if (it != g_watch_ptr->end()) ++it->second;
 }
 
 namespace {
@@ -286,6 +296,160 @@ void part_dealloc(const std::string& only) {
   if (g_samples.size() < 3) g_samples.push_back("on_next_epoch_deallocate(p) with the vector growth failing, second thread registered and not quiescent");
 }
 
+// ---- 3b. deferred deallocation request from every small QSBR history ---------------------------------------------------
+// The requesting thread and a second registered thread driven in lock step; history alphabet: R = request by this thread,
+// M = this thread quiesces, O = the other thread quiesces. After each history (all of them up to the depth bound) one more
+// request is made with its k-th allocation failing, for every k: the per-thread QSBR state, the global state word, the
+// orphan lists and the set of live blocks must be what they were, the pointer must not have been freed; the retry is
+// accepted; after the other thread left and two quiescent states every accepted pointer has been freed exactly once.
+
+struct ThreadSnap {
+  std::size_t prev, cur, cur_bytes;
+  std::uint64_t q_since, state;
+  unodb::qsbr_epoch seen, seen_q;
+  void *orph_prev, *orph_cur;
+  std::vector<void*> prev_ptrs, cur_ptrs;
+  bool operator==(const ThreadSnap& o) const {
+    return prev == o.prev && cur == o.cur && cur_bytes == o.cur_bytes && q_since == o.q_since && state == o.state &&
+           seen == o.seen && seen_q == o.seen_q && orph_prev == o.orph_prev && orph_cur == o.orph_cur && prev_ptrs == o.prev_ptrs &&
+           cur_ptrs == o.cur_ptrs;
+  }
+};
+
+ThreadSnap snap_thread() {
+  auto& me = unodb::this_thread();
+  auto& q = unodb::qsbr::instance();
+  ThreadSnap s{me.previous_interval_dealloc_requests.size(), me.current_interval_dealloc_requests.size(),
+#ifdef UNODB_DETAIL_WITH_STATS
+               me.current_interval_total_dealloc_size,
+#else
+               0,
+#endif
+               me.quiescent_states_since_epoch_change, q.state.load(), me.last_seen_epoch, me.last_seen_quiescent_state_epoch,
+               q.orphaned_previous_interval_dealloc_requests.load(), q.orphaned_current_interval_dealloc_requests.load(), {}, {}};
+  for (const auto& r : me.previous_interval_dealloc_requests) s.prev_ptrs.push_back(r.pointer);
+  for (const auto& r : me.current_interval_dealloc_requests) s.cur_ptrs.push_back(r.pointer);
+  return s;
+}
+
+void part_dealloc_histories(const std::string& only, unsigned depth) {
+  std::vector<std::string> hist{""};
+  for (std::size_t i = 0; i < hist.size(); ++i) {
+    if (hist[i].size() >= depth) continue;
+    for (const char c : {'R', 'M', 'O'}) hist.push_back(hist[i] + c);
+  }
+  std::uint64_t faulted = 0, new_epoch_path = 0;
+  auto& me = unodb::this_thread();
+  for (const auto& h : hist) {
+    if (!only.empty() && only.rfind("dealloch:" + h + ":", 0) != 0) continue;
+    std::map<void*, int> watch;
+    std::vector<void*> accepted;
+    g_watch_ptr = &watch;
+    std::atomic<int> cmd{0}, ack{0};
+    unodb::qsbr_thread second{[&cmd, &ack] {
+      int done = 0;
+      ack = -1;
+      while (true) {
+        const int c = cmd.load();
+        if (c == done) continue;
+        if (c < 0) break;
+        unodb::this_thread().quiescent();
+        done = c;
+        ack = c;
+      }
+    }};
+    while (ack.load() != -1) {
+    }
+    int cmds = 0;
+    const auto request = [&me](void* p) {
+      me.on_next_epoch_deallocate(p
+#ifdef UNODB_DETAIL_WITH_STATS
+                                  ,
+                                  64
+#endif
+                                  ,
+                                  nullptr);
+    };
+    const auto fresh = [&watch] {
+      void* p = unodb::detail::allocate_aligned(64);
+      watch[p] = 0;
+      return p;
+    };
+    for (const char c : h) {
+      if (c == 'R') {
+        void* p = fresh();
+        request(p);
+        accepted.push_back(p);
+      } else if (c == 'M') {
+        me.quiescent();
+      } else {
+        cmd = ++cmds;
+        while (ack.load() != cmds) {
+        }
+      }
+    }
+    ++g_states;
+    // the faulted request
+    void* const p = fresh();
+    const bool epoch_moved = me.last_seen_epoch != unodb::qsbr_state::get_epoch(unodb::qsbr::instance().state.load());
+    std::uint64_t n = 0;
+    for (std::uint64_t k = 1; k <= 8; ++k) {
+      const std::string id = "dealloch:" + h + ":" + std::to_string(k);
+      const auto before = snap_thread();
+      const auto frees_before = watch;
+      inj::reset();
+      inj::fail_on_nth_allocation(k);
+      bool threw = false;
+      {
+        Tracking t;
+        const auto live0 = t.live;
+        try {
+          request(p);
+        } catch (const std::bad_alloc&) {
+          threw = true;
+        }
+        track::on = false;
+        inj::reset();
+        if (threw && t.live != live0)
+          violation("C08/qsbr-dealloc-history/leak", "after history '" + h + "' a failed deferred-deallocation request (allocation " + std::to_string(k) + ") changed the set of live blocks", id);
+      }
+      if (!threw) {
+        n = k - 1;
+        accepted.push_back(p);
+        break;
+      }
+      ++g_fault_runs;
+      ++g_evals;
+      ++g_transitions;
+      ++faulted;
+      if (epoch_moved) ++new_epoch_path;
+      if (!(snap_thread() == before))
+        violation("C08/qsbr-dealloc-history/state-changed", "after history '" + h + "' a failed deferred-deallocation request (allocation " + std::to_string(k) + ") changed the QSBR state of the thread (pending requests, interval accounting or epochs seen)", id);
+      if (watch != frees_before)
+        violation("C08/qsbr-dealloc-history/freed", "after history '" + h + "' a failed deferred-deallocation request (allocation " + std::to_string(k) + ") executed pending requests", id);
+      std::memset(p, 0x5A, 64);  // still the caller's
+    }
+    (void)n;
+    cmd = -1;
+    second.join();
+    me.quiescent();
+    me.quiescent();
+    if (!me.current_interval_dealloc_requests.empty() || !me.previous_interval_dealloc_requests.empty())
+      violation("C08/qsbr-dealloc-history/pending", "after history '" + h + "' requests are still pending after the other thread left and two quiescent states", "dealloch:" + h + ":0");
+    for (void* a : accepted)
+      if (watch[a] != 1)
+        violation("C08/qsbr-dealloc-history/not-once", "after history '" + h + "' an accepted pointer was freed " + std::to_string(watch[a]) + " times", "dealloch:" + h + ":0");
+    g_watch_ptr = nullptr;
+    if (thread_count() != 1) {
+      violation("C08/qsbr/state-changed", "QSBR is not back in its idle state after history '" + h + "'", "dealloch:" + h + ":0");
+      break;
+    }
+  }
+  g_parts.push_back("on_next_epoch_deallocate after every history over {request, own quiescent state, other thread's quiescent state} up to length " +
+                    std::to_string(depth) + ": " + std::to_string(hist.size()) + " histories, " + std::to_string(faulted) +
+                    " faulted requests (" + std::to_string(new_epoch_path) + " of them first requests after an epoch change)");
+}
+
 // ---- 4. size limits ---------------------------------------------------------
 template <class Db>
 void length_checks(const char* name, const std::string& only) {
@@ -354,12 +518,13 @@ void length_checks(const char* name, const std::string& only) {
 }  // namespace
 
 int main(int argc, char** argv) {
-  std::string out_path = "/dev/stdout", only;
+  std::string out_path = "/dev/stdout", only, tier = "quick";
   for (int i = 1; i < argc; ++i) {
     const std::string a = argv[i];
     if (a == "--out" && i + 1 < argc) out_path = argv[++i];
     else if (a == "--replay-arg" && i + 1 < argc) only = argv[++i];
-    else if ((a == "--tier" || a == "--threads" || a == "--progress") && i + 1 < argc) ++i;
+    else if (a == "--tier" && i + 1 < argc) tier = argv[++i];
+    else if ((a == "--threads" || a == "--progress") && i + 1 < argc) ++i;
   }
   const auto part_of = [&](const char* p) { return only.empty() || only.rfind(p, 0) == 0; };
   if (part_of("resume")) part_resume(only);
@@ -369,8 +534,10 @@ int main(int argc, char** argv) {
   const bool qsbr_idle = thread_count() == 1 && !unodb::this_thread().is_qsbr_paused();
   if (!qsbr_idle && g_violations.empty())
     violation("C08/qsbr/state-changed", "QSBR is not back in its idle state (one registered thread) after the failed operations", "thread:0");
-  if (qsbr_idle && part_of("dealloc")) part_dealloc(only);
-  if (qsbr_idle && part_of("length")) {
+  if (qsbr_idle && part_of("dealloc") && !part_of("dealloch")) part_dealloc(only);
+  if (qsbr_idle && only.empty()) part_dealloc(only);
+  if (qsbr_idle && part_of("dealloch")) part_dealloc_histories(only, tier == "thorough" ? 9 : 6);
+  if (qsbr_idle && thread_count() == 1 && part_of("length")) {
     length_checks<unodb::db<unodb::key_view, unodb::value_view>>("db", only);
     length_checks<unodb::olc_db<unodb::key_view, unodb::value_view>>("olc_db", only);
   }
